@@ -404,7 +404,7 @@ MANIFEST_TEXT.update({
                "context of variable-independent sets), plus Lean proofs of the three README equivalences for every body formula; "
                "oracle runs the equivalences through the public API."),
     "C03": _ev("Lean theorems: every set returned by the entry points is the unit set intersected with a satisfaction set (hence valid "
-               "colours only, counts bounded), and the raw result of a closed formula is independent of the spare variables; oracle "
+               "colours only, counts bounded — also the three numbers the command-line tool prints, reported_counts_le), and the raw result of a closed formula is independent of the spare variables; oracle "
                "checks both on the implementation's raw BDDs."),
     "C13": _ev("Lean theorems: eval_ew/eval_aw denote exactly weak until on paths; EW = EU or EG; psi implies both; the defining "
                "equivalences are also evaluated through the tool."),
@@ -412,14 +412,14 @@ MANIFEST_TEXT.update({
                "the string entry point returns) is independent of the number of spare variable sets, sanitising succeeds and equals "
                "the raw (state, colour) set; transfer_from is modelled; oracle compares raw/sanitised/k-variants and SymbolicAsyncGraph::new."),
     "C18": _ev("Lean theorems: on the fragment, eval_node with steady set empty is literally equal to standard eval_node (any cache state); "
-               "without steady states both compute the satisfying points."),
-    "C20": _ev("Lean theorem: satisfaction at a colour mentions only that colour's transition system, hence colour slices agree between "
+               "without steady states both compute the satisfying points; unsafeEx_eq_standard is the same at the string entry point."),
+    "C20": _ev("Lean theorem: satisfaction at a colour mentions only that colour's transition system, hence colour slices agree between (in particular with the one-colour graph `instantiate G c`, slice_eq_instantiated) "
                "graphs agreeing on that colour; oracle compares every valid colour's slice with the pick_witness network."),
 })
 
 MANIFEST_TEXT.update({
     "C10": _ev("Lean theorems sat_subst / substitute_raw_result: replacing a closed sub-formula, at any position, by a fresh wild-card "
-               "bound to its raw result leaves the evaluated set unchanged on every graph. Oracle substitutes raw results through "
+               "bound to its raw result leaves the evaluated set unchanged on every graph; plain_through_extended: the extended entry point with an empty context returns, outcome for outcome, what the plain entry point returns on every list of plain texts. Oracle substitutes raw results through "
                "the public API, small and benchmark models."),
     "C11": _ev("Lean theorems for arbitrary argument sets on arbitrary graphs: unfolding laws of EF/EG/EU/AU, dualities, monotonicity, "
                "EF/EU = (constrained) backward reachability, AG = forward-closed subset, steady states as self-loops. Oracle "
@@ -446,7 +446,9 @@ MANIFEST_TEXT.update({
             "note": _FRONT_NOTE, "technique": "Lean 4 proof (induction over the renamer with scope-map invariants) + differential correspondence check"},
     "C08": {"text": "Lean theorems: alpha-equivalent accepted inputs are preprocessed to the same tree; redundant parentheses (outer and "
                     "around any sub-formula) and constant spellings do not change the parse; the evaluator reads variables by canonical "
-                    "name. Oracle: results of rewritten texts (renaming, whitespace, parentheses, long names, constants) through the API.",
+                    "name; white space, long/short spellings and hybrid-segment spacing keep the token list (lexical specification), and "
+                    "the entry points depend on the strings only through tokens / preprocessed trees (results_of_same_tokens, "
+                    "formulaeDirty_congr, parseOne_of_alpha), so the RESULTS are invariant. Oracle: results of rewritten texts (renaming, whitespace, parentheses, long names, constants) through the API.",
             "note": _FRONT_NOTE + " Whitespace/long-spelling invariance is proved from the lexical specification the tokenizer model meets.",
             "technique": "Lean 4 proof (corollaries of C05/C07) + differential correspondence check + rewrite oracle"},
 })
@@ -456,8 +458,9 @@ _GLUE_NOTE = ("Trusted: Lean kernel, axioms {propext, Classical.choice, Quot.sou
               "observed by the correspondence run, not modelled.")
 MANIFEST_TEXT.update({
     "C16": {"text": "Lean theorems about the archive model: reading back the entries written for a label->set map yields exactly that map "
-                    "(valid labels; given the BDD string round trip), model.aeon/formulae.txt are never mistaken for sets, and line i of "
-                    "formulae.txt is formula i. Correspondence: the real zip entries and reload vs the model; oracle: set equality after "
+                    "(labels whose last path component is not empty, nested labels included; given the BDD string round trip), model.aeon/formulae.txt are never mistaken for sets, and line i of "
+                    "formulae.txt is formula i; the reloaded context has the same effect as the in-memory one for the extended entry point and "
+                    "for the tool (reloaded_context_same_effect). Correspondence: the real zip entries and reload vs the model; oracle: set equality after "
                     "reload on a graph rebuilt from the archived model, and reloaded sets used as wild-card context.",
             "note": _GLUE_NOTE, "technique": "Lean 4 proof (list lemmas over a model of Path::extension/strip_suffix/lines) + differential correspondence check"},
     "C17": {"text": "Lean theorems: the formula-file loader (what is kept, order, idempotence) and the tool's pipeline as a function of "
@@ -487,7 +490,9 @@ MANIFEST_TEXT.update({
 MANIFEST_TEXT.update({
     "C04": _ev("Lean theorem evalNode_sound / cache_transparent: from EVERY evaluation context satisfying an explicit invariant (hence after "
                "any history, with any duplicate counters) the cached evaluator returns exactly the satisfaction set, keeps the invariant "
-               "and restores the open scopes; batches are exact position by position, so order, repetition and sharing cannot matter. "
+               "and restores the open scopes; batches are exact position by position, so order, repetition and sharing cannot matter "
+               "(formulae_position_independent / extended_position_independent: the same string gets the same set at any position of any "
+               "list, alone or repeated). "
                "The facts about canonical keys and the duplicate map this needs are derived from the canoniser / mark_duplicates models "
                "(keySem_holds, keyWild_holds, dups_le_one, markDups_witness), the initial contexts of both entry points satisfy the "
                "invariant, and treesDirty_sound / extendedDirty_sound are end-to-end statements. Oracle: batch vs "
@@ -497,7 +502,8 @@ MANIFEST_TEXT.update({
                "return the validation error or a result, never a panic (formulaeDirty_correct, extendedDirty_correct, "
                "no_panic_treesDirty: every panic site of the evaluator is an explicit outcome and unreachable under the cache "
                "invariant); the plain entry point errs exactly for ill-scoped formulae / unknown propositions / too few variable "
-               "sets (with C07). Oracle: every string entry point under catch_unwind on hostile inputs.",
+               "sets (with C07); plain_outcome / extended_outcome give the exact error classes for both entry points, including the label "
+               "without a context set. Oracle: every string entry point under catch_unwind on hostile inputs.",
                tech="Lean 4 proof (panic sites as explicit outcomes, unreachable under the invariant) + differential correspondence check + catch_unwind oracle"),
 })
 
